@@ -12,6 +12,7 @@ import Bermuda.Model.Plot
 import Bermuda.Spec.C20
 import Bermuda.Lemmas.Plot
 import Bermuda.Lemmas.PlotSpec
+import Bermuda.Lemmas.PlotStats
 import Bermuda.Generated.PlotMetrics
 namespace Bermuda.Properties.C20
 open Bermuda Bermuda.Plot
@@ -342,5 +343,255 @@ example :
     ((buildPlotDataOpt true Generated.PlotMetrics.metrics t).map fun r => r.entries.map (·.1)) =
       [["paid_loss"]] := by
   decide +kernel
+
+/-! ### 8. what the statistics ARE, independently of the model's formulas
+
+`Spec.statOf` names the model's `mean / median / variance / quantile / minimum / maximum`. The theorems of this section
+characterise those functions without reference to their defining formulas: order statistics are THE ascending
+rearrangement of the sample; the p-quantile is the k-th order statistic at the grid point p = k/(n−1) and the linear
+interpolation of its two neighbours in between (numpy's default method "linear"), hence min at 0, max at 1 and the median
+at 1/2; `mean · n = Σ`; the variance is the POPULATION variance. (The harness recomputes every statistic once more with
+`fractions` from these characterisations — `percentile`, `py_spec` — which is the oracle for the implementation.) -/
+
+/-- the sorted sample is an ascending rearrangement of the sample … -/
+theorem order_statistics (xs : List Rat) : (sortRat xs).Perm xs ∧ (sortRat xs).Pairwise (· ≤ ·) :=
+  ⟨List.mergeSort_perm xs _, sortRat_sorted xs⟩
+
+/-- the order statistics are determined by the sample alone: ANY ascending rearrangement of `xs` is `sortRat xs` -/
+theorem sortRat_unique {xs l : List Rat} (hp : l.Perm xs) (hs : SortedR l) : l = sortRat xs := by
+  have hp2 : l.Perm (sortRat xs) := hp.trans (List.mergeSort_perm xs _).symm
+  exact hp2.eq_of_pairwise (le := (· ≤ ·)) (fun a b _ _ h1 h2 => le_antisymm h1 h2) hs (sortRat_sorted xs)
+
+/-- `minimum` is the least element of the sample, `maximum` the greatest (and they are what the Spec's own folds
+`minOf` / `maxOf` compute) -/
+theorem minimum_is_least (xs : List Rat) (hne : xs ≠ []) :
+    minimum xs ∈ xs ∧ (∀ x ∈ xs, minimum xs ≤ x) ∧ Spec.C20.minOf xs = minimum xs := by
+  have hs : sortRat xs ≠ [] := by
+    intro h; have := sortRat_length xs; rw [h] at this
+    exact hne (List.eq_nil_of_length_eq_zero this.symm)
+  exact ⟨mem_sortRat.mp (nth_mem hs 0), fun x hx => first_le_mem (sortRat_sorted xs) (mem_sortRat.mpr hx),
+    minOf_eq_minimum xs⟩
+
+theorem maximum_is_greatest (xs : List Rat) (hne : xs ≠ []) :
+    maximum xs ∈ xs ∧ (∀ x ∈ xs, x ≤ maximum xs) ∧ Spec.C20.maxOf xs = maximum xs := by
+  have hs : sortRat xs ≠ [] := by
+    intro h; have := sortRat_length xs; rw [h] at this
+    exact hne (List.eq_nil_of_length_eq_zero this.symm)
+  refine ⟨mem_sortRat.mp (nth_mem hs _), fun x hx => ?_, maxOf_eq_maximum xs⟩
+  have := mem_le_last (sortRat_sorted xs) (mem_sortRat.mpr hx)
+  rwa [sortRat_length] at this
+
+/-- the virtual index `h` lies in `[k, k+1)`: the quantile is the linear interpolation of the two neighbouring
+order statistics -/
+theorem quantile_between (xs : List Rat) (q : Rat) (k : Nat)
+    (h1 : (k : Rat) ≤ q * ((xs.length : Rat) - 1)) (h2 : q * ((xs.length : Rat) - 1) < (k : Rat) + 1) :
+    quantile xs q =
+      (1 - (q * ((xs.length : Rat) - 1) - k)) * nth (sortRat xs) k +
+        (q * ((xs.length : Rat) - 1) - k) * nth (sortRat xs) (k + 1) := by
+  have hf : (q * ((xs.length : Rat) - 1)).floor = (k : Int) := floor_eq (by exact_mod_cast h1) (by exact_mod_cast h2)
+  unfold quantile
+  simp only [hf, Int.toNat_natCast]
+  push_cast
+  ring
+
+/-- at the grid point `k/(n−1)` the quantile IS the k-th order statistic -/
+theorem quantile_at_grid (xs : List Rat) (k : Nat) (hn : 2 ≤ xs.length) :
+    quantile xs ((k : Rat) / ((xs.length : Rat) - 1)) = nth (sortRat xs) k := by
+  have hne : (xs.length : Rat) - 1 ≠ 0 := by
+    have : (2 : Rat) ≤ (xs.length : Rat) := by exact_mod_cast hn
+    intro h; linarith
+  have hh : (k : Rat) / ((xs.length : Rat) - 1) * ((xs.length : Rat) - 1) = k := by field_simp
+  rw [quantile_between xs _ k (by rw [hh]) (by rw [hh]; linarith), hh]
+  ring
+
+theorem quantile_zero (xs : List Rat) : quantile xs 0 = minimum xs := by
+  have := quantile_between xs 0 0 (by simp) (by simp)
+  rw [this]; unfold minimum; simp
+
+theorem quantile_one (xs : List Rat) (hne : xs ≠ []) : quantile xs 1 = maximum xs := by
+  have hl : 1 ≤ xs.length := List.length_pos_iff.mpr hne
+  have hc : (1 : Rat) * ((xs.length : Rat) - 1) = ((xs.length - 1 : Nat) : Rat) := by
+    rw [Nat.cast_sub hl]; simp
+  have := quantile_between xs 1 (xs.length - 1) (by rw [hc]) (by rw [hc]; linarith)
+  rw [this, hc]; unfold maximum; simp
+
+/-- `np.median` is the 50th percentile -/
+theorem median_eq_quantile_half (xs : List Rat) (hne : xs ≠ []) : median xs = quantile xs (1 / 2) := by
+  have hl : 1 ≤ xs.length := List.length_pos_iff.mpr hne
+  rcases Nat.even_or_odd' xs.length with ⟨m, hm | hm⟩
+  · -- n = 2m, m ≥ 1: h = m - 1/2
+    have hm1 : 1 ≤ m := by omega
+    have hh : (1 / 2 : Rat) * ((xs.length : Rat) - 1) = ((m - 1 : Nat) : Rat) + 1 / 2 := by
+      rw [hm, Nat.cast_sub hm1]; push_cast; ring
+    rw [quantile_between xs (1 / 2) (m - 1) (by rw [hh]; linarith) (by rw [hh]; linarith), hh]
+    unfold median
+    have h1 : xs.length % 2 = 0 := by omega
+    have h2 : xs.length / 2 = m := by omega
+    simp only [h1, h2]
+    have h3 : m - 1 + 1 = m := by omega
+    rw [h3]
+    simp
+    ring
+  · -- n = 2m+1: h = m
+    have hh : (1 / 2 : Rat) * ((xs.length : Rat) - 1) = (m : Rat) := by
+      rw [hm]; push_cast; ring
+    rw [quantile_between xs (1 / 2) m (by rw [hh]) (by rw [hh]; linarith), hh]
+    unfold median
+    have h1 : xs.length % 2 = 1 := by omega
+    have h2 : xs.length / 2 = m := by omega
+    simp only [h1, h2]
+    simp
+
+/-- `sum` is the plain recursion -/
+theorem sum_rec : sum [] = 0 ∧ ∀ (x : Rat) (xs : List Rat), sum (x :: xs) = x + sum xs := ⟨rfl, sum_cons⟩
+
+theorem mean_mul_length (xs : List Rat) (hne : xs ≠ []) : mean xs * (xs.length : Rat) = sum xs := by
+  have hl : (xs.length : Rat) ≠ 0 := by
+    have := List.length_pos_iff.mpr hne
+    exact_mod_cast (by omega : xs.length ≠ 0)
+  unfold mean; field_simp
+
+/-- POPULATION variance (numpy's default `ddof=0`): for two points it is the squared half distance -/
+theorem variance_pair (a b : Rat) : variance [a, b] = ((a - b) / 2) ^ 2 := by
+  simp only [variance, mean, sum, List.foldl_cons, List.foldl_nil, List.map_cons, List.map_nil, List.length_cons,
+    List.length_nil]
+  push_cast
+  ring
+
+/-- the population variance is the mean of the squares minus the square of the mean -/
+theorem variance_eq_mean_sq (xs : List Rat) (hne : xs ≠ []) :
+    variance xs = mean (xs.map fun x => x * x) - mean xs * mean xs := by
+  have hl : (xs.length : Rat) ≠ 0 := by
+    have := List.length_pos_iff.mpr hne
+    exact_mod_cast (by omega : xs.length ≠ 0)
+  unfold variance
+  simp only [sum_map_sq_sub]
+  unfold mean
+  rw [List.length_map]
+  field_simp
+  ring
+
+/-- the convention pinned on numbers: the variance of {1, 3} is 1 (a sample variance, ddof = 1, would be 2) -/
+example : variance [1, 3] = 1 ∧ variance [1, 3] ≠ 2 ∧ mean [1, 3] = 2 := by
+  decide +kernel
+
+/-- … and on a sample given out of order: the order statistics of 5,3,1,2,4 are 1..5, the lower quartile is the
+order statistic 2 (grid point 1/4 = 1/(5−1)), the median 3, the extremes 1 and 5 -/
+example : sortRat [5, 3, 1, 2, 4] = [1, 2, 3, 4, 5] ∧ quantile [5, 3, 1, 2, 4] (1 / 4) = 2 ∧
+    median [5, 3, 1, 2, 4] = 3 ∧ quantile [5, 3, 1, 2, 4] 0 = 1 ∧ quantile [5, 3, 1, 2, 4] 1 = 5 := by
+  have hs : sortRat [5, 3, 1, 2, 4] = [1, 2, 3, 4, 5] :=
+    (sortRat_unique (l := [1, 2, 3, 4, 5]) (by decide) (by simp [SortedR]; norm_num)).symm
+  have hq : quantile [5, 3, 1, 2, 4] (1 / 4) = 2 := by
+    have := quantile_at_grid [5, 3, 1, 2, 4] 1 (by simp)
+    simp only [List.length_cons, List.length_nil] at this
+    norm_num at this
+    rw [this, hs]; rfl
+  refine ⟨hs, hq, ?_, ?_, ?_⟩
+  · rw [median_eq_quantile_half _ (by simp)]
+    have := quantile_at_grid [5, 3, 1, 2, 4] 2 (by simp)
+    simp only [List.length_cons, List.length_nil] at this
+    norm_num at this
+    rw [this, hs]; rfl
+  · rw [quantile_zero, minimum, hs]; rfl
+  · rw [quantile_one _ (by simp), maximum, hs]; rfl
+
+/-! ### 9. the domain hypothesis `ValidT` is necessary -/
+
+/-- two cells of one slice and period that share the evaluation date (other values) are outside `ValidT`, and the
+conclusion of `spec_holds_on_model` FAILS there: the first one is handed its twin as "next evaluation", so it carries a
+Paid ATA (4/2 = 2) although no later evaluation exists — "absent inputs yield no summary" is false, and so is the whole
+Spec. (The implementation does the same: the model follows `zip(row, …, row[1:])`.) -/
+theorem validT_necessary :
+    ¬ ValidT [dupA, dupB] ∧
+    ((buildPlotData Generated.PlotMetrics.metrics [dupA, dupB]).map
+        fun r => (r.metrics.lookup "paid_ata").map (·.stats)) = [some [("mean", .exact 2)], none] ∧
+    Spec.C20.absentOk [dupA, dupB] (buildPlotData Generated.PlotMetrics.metrics [dupA, dupB]) = false ∧
+    Spec.C20.holds 0 [dupA, dupB] (buildPlotData Generated.PlotMetrics.metrics [dupA, dupB]) = false := by
+  have h3 : Spec.C20.absentOk [dupA, dupB] (buildPlotData Generated.PlotMetrics.metrics [dupA, dupB]) = false := by
+    rw [build_two]; decide +kernel
+  refine ⟨?_, by rw [build_two]; decide +kernel, h3, ?_⟩
+  · intro h
+    have := h.1
+    simp [dupA, dupB, rowKey] at this
+  · simp [Spec.C20.holds, h3]
+
+/-! ### 10. the options `flat` and `keep_samples` -/
+
+/-- **`flat=True` loses nothing**: for every cell of a valid triangle and both values of `remove_empties`, looking the
+flat key `<metric>_<stat>` of ANY metric of the table and ANY statistic name up in the flattened record gives exactly
+the nested record's `record[metric][stat]` (absent ⇔ absent) — although `paid_loss` is a prefix of `paid_loss_ratio`
+(`flat_keys_injective`). An empty summary leaves no key (`flattenSummaries` runs over the non-empty summaries). -/
+theorem flat_unflat {t : List Cell} (hv : ValidT t) (b : Bool) {c : Cell} (hc : c ∈ t)
+    {m k : String} (hm : m ∈ Spec.C20.table.map (·.1)) (hk : k ∈ Spec.C20.requiredStats) :
+    let ne := nonEmpty (keepEntries b (lookupLastAll c (fieldSummariesAll Generated.PlotMetrics.metrics t)))
+    (flattenSummaries ne).lookup (flatKey m k) = (ne.lookup m).bind fun s => s.stats.lookup k := by
+  intro ne
+  have hne : ne = lookupLast c (fieldSummaries Generated.PlotMetrics.metrics t) := by
+    show nonEmpty (keepEntries b _) = _
+    rw [nonEmpty_keep, fieldSummaries_eq_map, lookupLast_map]
+  obtain ⟨p, hp⟩ := own_entry hv Generated.PlotMetrics.metrics hc
+  rw [hp] at hne
+  have hnames : Generated.PlotMetrics.metrics.map (toSnake ·.name) = Spec.C20.table.map (·.1) :=
+    metric_names.1
+  have hsub := cellSummaries_names_sublist Generated.PlotMetrics.metrics c p (Spec.C20.nextInSlice t c)
+  rw [hnames] at hsub
+  rw [hne]
+  refine flat_unflat_lookup (injOn_of_flatInjectiveL flat_keys_injective) _ ?_ ?_ ?_ hm hk
+  · intro e he
+    exact hsub.subset (List.mem_map_of_mem (f := (·.1)) he)
+  · intro e he kv hkv
+    obtain ⟨mv, hmv⟩ := mem_cellSummaries he
+    rw [hmv] at hkv
+    exact fieldSummary_keys mv kv hkv
+  · exact hsub.nodup metric_names.2
+
+/-- **`keep_samples` changes no statistic**: the summary (every statistic, `is_forecast`) is the one of the default
+call, for every metric value -/
+theorem keepSamples_stats_unchanged (keep : Bool) (mv : MV) :
+    (fieldSummaryK keep mv).summary = fieldSummary mv := rfl
+
+/-- slot by slot: with either value of `keep_samples` the slots of a cell carry the summaries of `cellSummariesAll` -/
+theorem keepSamples_slots_unchanged (keep : Bool) (ms : List Metric) (c : Cell) (p n : Option Cell) :
+    (cellSummariesAllK keep ms c p n).map (fun e => (e.1, e.2.map (·.summary))) = cellSummariesAll ms c p n := by
+  unfold cellSummariesAllK cellSummariesAll
+  rw [List.map_map]
+  apply List.map_congr_left
+  intro m _
+  simp only [Function.comp]
+  cases h : safeApplyMetric m c p n <;> simp [fieldSummaryK]
+
+/-- what `keep_samples=True` keeps: for a metric with at least two samples the dict `{0: x₀, …, n−1: xₙ₋₁}` — keys
+0..n−1 in order, values the metric's own samples in order; a scalar or single-sample metric keeps its mean; without
+the flag the entry is the mean -/
+theorem keepSamples_metric_entry (x y : Rat) (xs : List Rat) (q : Rat) :
+    metricEntry true (.sample (x :: y :: xs)) = .samples (enumerate (x :: y :: xs)) ∧
+    (enumerate (x :: y :: xs)).map (·.1) = List.range (xs.length + 2) ∧
+    (enumerate (x :: y :: xs)).map (·.2) = x :: y :: xs ∧
+    metricEntry false (.sample (x :: y :: xs)) = .mean (mean (x :: y :: xs)) ∧
+    metricEntry true (.scalar q) = .mean q ∧ metricEntry true (.sample [x]) = .mean x := by
+  refine ⟨rfl, ?_, ?_, rfl, rfl, rfl⟩
+  · unfold enumerate
+    rw [List.map_fst_zip]
+    · simp
+    · simp
+  · unfold enumerate
+    rw [List.map_snd_zip]
+    simp
+
+/-- Spec bridge for the flat records: the model's flat record is, by definition, the flattening of its nested one -/
+theorem flatOk_model (r : RecordE) : Spec.C20.flatOk r (flattenSummaries r.base.metrics) = true := by
+  unfold Spec.C20.flatOk; exact beq_self_eq_true _
+
+/-- Spec bridge: the model's `metric` entries of a cell (row successor = next evaluation of the same slice and period)
+satisfy `keptOk` exactly, for both values of the flag -/
+theorem keptOk_model (keep : Bool) (t : List Cell) (c : Cell) (p : Option Cell) :
+    Spec.C20.keptOk 0 keep t c (metricEntries keep Generated.PlotMetrics.metrics c p (Spec.C20.nextInSlice t c)) = true := by
+  unfold Spec.C20.keptOk
+  rw [List.all_eq_true]
+  intro e he
+  rw [lookup_metricEntries keep c p _ he, expected_eq]
+  cases expectedWith c (Spec.C20.nextInSlice t c) e.2 with
+  | none => rfl
+  | some mv => exact entryApprox_self _
 
 end Bermuda.Properties.C20
